@@ -31,8 +31,13 @@ def h(t, part):
     calls = []
     rets = []
 
+    class Boom(RuntimeError):
+        pass
+
     def body(tag, a):
         calls.append((tag, a))
+        if part.get('boom_first') and len(calls) == 1:
+            raise Boom('application handler')
         return rets[-1] if rets else None
 
     def mk(tag, coro):
@@ -111,6 +116,14 @@ def h(t, part):
         for f in frames:
             w.recv(e, f)
         w.finish()
+        boomed = part.get('boom_first') and k == 0 and sid is not None and who != 'nobody'
+        if boomed:
+            # the application's handler raised (engine.io contains it): no ACK is due, nothing else may be disturbed
+            if [x for x in w.eio.contained if type(x[1]).__name__ != 'Boom']:
+                return Fail('event:exception-after-raising-handler', repr(w.eio.contained))
+            del w.eio.contained[:]
+            w.take(e)
+            continue
         if w.eio.contained:
             return Fail('event:exception:%s' % type(w.eio.contained[0][1]).__name__, repr(w.eio.contained[0]))
         new = calls[ncalls:]
@@ -164,6 +177,8 @@ def parts(tier):
     if tier == 'quick':
         # two consecutive events (order, per-client isolation) for the function-handler configuration
         out += [{'async': a, 'who': 'fn', 'async_handlers': False, 'n': 2, 'first': f} for a in (False, True) for f in range(4)]
+        out += [{'async': a, 'who': 'fn', 'async_handlers': False, 'n': 2, 'first': f, 'boom_first': True}
+                for a in (False, True) for f in range(3)]
     return out
 
 
